@@ -48,6 +48,9 @@ CHECKS = {
  "C11": ("fault_enumeration", "exhaustive configuration x fault matrix on the scripted transport; request kinds taken from the transport log",
          "All 1 440 Valve cells (toggle pairs x section outcomes x app-id relation x check on/off) and 81 Unreal 2 cells, each with 20 (quick) / 400 (thorough) random server states: Skip never requests, Try+failure leaves the rest equal to the fault-free response, Enforce+failure fails with the failure's class, BadGame exactly when the check applies and the id is not expected, and nothing is requested after BadGame.",
          "Failure kinds asserted by class (timeout vs non-timeout).", "4 C11"),
+ "C14": ("exploration", "three-path differential monitor: transport logs and results of the generic, per-game-module and protocol-level call paths under the same scripted server, for every GAMES entry (table iterated at run time)",
+         "Every GAMES entry x port given/omitted x 7 server behaviours (valid with main/dedicated/foreign app id, players silent, rules silent, malformed, silence) x 6 (quick) / 80 (thorough) states: identical connect/send logs and equal results (JSON; Valve projected to game::Response; Err by kind) across the three paths. Module functions are located through tables generated at build time from the repository's game_query_mod! lines; Eco is probed with real loopback listeners.",
+         "Modules matched to definitions by pretty name; unmapped entries are inconclusive for that entry only.", "4 C14"),
 }
 NOT_YET = {}
 for i in range(1, 21):
